@@ -190,6 +190,7 @@ def hygiene():
                 continue
             p = os.path.join(root, f)
             txt = strip_coq_comments(open(p).read())
+            txt = re.sub(r'"(?:[^"]|"")*"', '""', txt)   # string literals are data, not declarations
             depth = 0
             for n, ln in enumerate(txt.split("\n"), 1):
                 if re.match(r'\s*Section\s', ln):
